@@ -197,6 +197,7 @@ def run_all(tier, seed, want=("text", "ceval")):
         with common.scratch_cwd():
             for t in ctypes:
                 evals += ceval_type(t, r, ffi, lines, expect, ctxs, fails, tags, samples)
+            evals += ceval_type(SHARED, r, ffi, lines, expect, ctxs, fails, tags, samples, given=object_after_update_of_its_copy)
     got = common.run_driver("capi", lines, timeout=1800)
     if len(got) != len(lines):
         raise common.Infra(f"capi driver: {len(lines)} in {len(got)} out")
@@ -243,12 +244,31 @@ def make_object(t, r, cache, forms=("py", "py", "nd")):
     return None, None, None, None
 
 
-def ceval_type(t, r, ffi, lines, expect, ctxs, fails, tags, samples):
+SHARED = ("struct", "PairSO", [("a", ("array", ("scalar", 2), [None], [0])), ("b", ("array", ("scalar", 2), [None], [0]))])
+
+
+def object_after_update_of_its_copy(t, r, cache):
+    """the handle of an object AFTER a struct copy-constructed from it was updated as a whole with a value of the same size that
+    divides the room differently: the handle's cached field offsets must still be its own"""
+    xo = common.import_xobjects()
+    cls = T.build(t, cache)
+    buf = xo.ContextCpu().new_buffer(r.choice([64, 4096]))
+    buf.allocate(r.choice([8, 24]))
+    d = {"a": ("ARR", [1], [1]), "b": ("ARR", [3], [10, 20, 30])}
+    d3 = {"a": ("ARR", [3], [1, 2, 3]), "b": ("ARR", [1], [10])}
+    obj = cls(T.to_py(t, d, cache, "py"), _buffer=buf)
+    cp = cls(obj, _buffer=r.choice([buf, xo.ContextCpu().new_buffer(64)]))
+    third = cls(T.to_py(t, d3, cache, "py"), _buffer=buf)
+    cp._update(third)
+    return obj, d, d, "py+copy-updated"
+
+
+def ceval_type(t, r, ffi, lines, expect, ctxs, fails, tags, samples, given=None):
     xo = common.import_xobjects()
     cache = {}
     cls = T.build(t, cache)
     s = T.sexp(t)
-    obj, d, e, form = make_object(t, r, cache)
+    obj, d, e, form = (given or make_object)(t, r, cache)
     if obj is None:
         tags["ceval.noobj"] += 1
         return 0
